@@ -27,7 +27,7 @@ impl<'a> M<'a> {
             return false;
         }
         self.used += 1;
-        let out = self.prop.execute(&cand);
+        let out = crate::runner::exec_hermetic(self.prop, &cand);
         if out.invalid.is_some() {
             return false;
         }
@@ -355,7 +355,7 @@ pub fn minimise(prop: &dyn Prop, sc: &Scenario, v: &Violation, budget: usize) ->
         }
     }
     // refresh the violation against the final scenario (step numbers refer to it)
-    let out = prop.execute(&m.best);
+    let out = crate::runner::exec_hermetic(prop, &m.best);
     let v = out.violation.unwrap_or(m.best_v.clone());
     Minimised { scenario: m.best, violation: v, executions: m.used }
 }
